@@ -5,7 +5,7 @@
 From Coq Require Import ZArith List Bool Lia ZifyBool QArith.
 From Coq Require String Ascii.
 Import Coq.Strings.String.StringSyntax.
-From Segno Require Import Base.PyLite Ref.Pixel Model.Iter Model.Color Model.TextFmt Ref.TextFmtReader.
+From Segno Require Import Base.PyLite Ref.IsoData Ref.Pixel Model.Iter Model.Color Model.TextFmt Ref.TextFmtReader.
 From Segno Require Import Lemmas.IterLemmas.
 Import ListNotations.
 Open Scope Z_scope.
@@ -1011,6 +1011,9 @@ Qed.
 
 Definition dbl (row : list Z) : list Z := flat_map (fun b => [b; b]) row.
 
+Lemma rev_dbl_cons b row : rev (dbl (b :: row)) = rev (dbl row) ++ [b; b].
+Proof. unfold dbl. cbn [flat_map app rev]. rewrite <- app_assoc. reflexivity. Qed.
+
 Lemma term_row_run row : forall prev cnt, Forall bit01 row ->
   (cnt = 0 /\ prev = -1) \/ (0 < cnt /\ bit01 prev) ->
   exists s, term_row row prev cnt = Ok (s ++ [10])
@@ -1030,8 +1033,7 @@ Proof.
       destruct (IH prev (cnt + 1) Hrow' (or_intror (conj Hc1 Hp))) as [s [Hs Hrun]].
       exists s. split; [exact Hs|]. intros l cur acc. rewrite Hrun.
       replace (Z.to_nat (2 * (cnt + 1))) with (S (S (Z.to_nat (2 * cnt)))) by lia.
-      unfold dbl. cbn [flat_map rev repeat app]. fold (dbl row). rewrite rev_app_distr. cbn [rev app].
-      rewrite <- !app_assoc. reflexivity.
+      rewrite rev_dbl_cons. cbn [repeat]. rewrite <- app_assoc. reflexivity.
     + destruct (IH bit 1 Hrow' (or_intror (conj Z.lt_0_1 Hbit))) as [s [Hs Hrun]].
       rewrite Hs.
       assert (Hfl : exists t, term_flush prev cnt = Ok t
@@ -1044,8 +1046,7 @@ Proof.
       exists (t ++ s). split; [rewrite app_assoc; reflexivity|]. intros l cur acc.
       rewrite <- app_assoc. rewrite Htrun, Hrun.
       change (Z.to_nat (2 * 1)) with 2%nat.
-      unfold dbl. cbn [flat_map rev repeat app]. fold (dbl row). rewrite rev_app_distr. cbn [rev app].
-      rewrite <- !app_assoc. reflexivity.
+      rewrite rev_dbl_cons. cbn [repeat]. rewrite <- app_assoc. reflexivity.
 Qed.
 
 Lemma pair_cells_dbl row : pair_cells (dbl row) = Some row.
@@ -1295,4 +1296,163 @@ Proof.
   - rewrite <- Hlen. rewrite firstn_app, Nat.sub_diag, firstn_all. cbn [firstn]. rewrite app_nil_r.
     rewrite skipn_app, Nat.sub_diag, skipn_all. cbn [skipn app]. split; reflexivity.
   - rewrite <- Hlen. rewrite firstn_all, skipn_all. split; reflexivity.
+Qed.
+
+(* ------------------------------------------------------------------------------------------------ *)
+(** * 9. Refusals and exception classes *)
+
+(* every row of matrix_iter has the same length, whatever the arguments *)
+Lemma iter_rows_row_len m w h s b row :
+  In row (iter_rows m w h s b) -> length row = (Z.to_nat s * Z.to_nat (w + b - - b))%nat.
+Proof.
+  unfold iter_rows, repeat_each at 1. intros H. apply in_flat_map in H. destruct H as [r [Hr Hin]].
+  apply repeat_spec in Hin. subst row. apply in_map_iff in Hr. destruct Hr as [i [<- _]].
+  rewrite repeat_each_length, map_length, zrange_length. reflexivity.
+Qed.
+
+(* write_terminal_compact on a 0/1 matrix, any geometry *)
+Theorem write_terminal_compact_result : forall m w h border, bits m ->
+  if border_refused border then write_terminal_compact m w h border = Err ValueError
+  else exists out, write_terminal_compact m w h border = Ok out.
+Proof.
+  intros m w h border Hm. destruct (border_refused border) eqn:Hb; [apply write_terminal_compact_refusal; exact Hb|].
+  unfold write_terminal_compact. rewrite check_border_z, Hb. cbn [bind].
+  rewrite check_valid_scale_spec. change (1 <? 1) with false. cbn [bind].
+  destruct (compact_lines_run _ (iter_rows m w h 1 (get_border w h border))
+              (iter_rows_bits m w h 1 _ Hm) (fun row => iter_rows_row_len m w h 1 _ row)) as [out [Ho _]].
+  exists out. exact Ho.
+Qed.
+
+(** ** colours (XPM) *)
+Lemma alpha_value_err c af e : alpha_value c af = Err e -> e = ValueError.
+Proof.
+  unfold alpha_value. destruct ((0 <=? c) && (c <=? 255)); [|intros H; inversion H; reflexivity].
+  destruct af; [destruct (assocZ c _)|]; discriminate.
+Qed.
+
+Lemma int16_2_err a b e : int16_2 a b = Err e -> e = ValueError.
+Proof.
+  unfold int16_2. destruct (hexval a), (hexval b);
+    repeat match goal with |- context [if ?c then _ else _] => destruct c end;
+    intros H; inversion H; reflexivity.
+Qed.
+
+Lemma pairs_hex_err : forall s e, pairs_hex s = Err e -> e = ValueError.
+Proof.
+  assert (Hgen : forall n s e, (length s <= n)%nat -> pairs_hex s = Err e -> e = ValueError).
+  { induction n as [|n IH]; intros s e Hn.
+    - destruct s; [discriminate | cbn in Hn; lia].
+    - destruct s as [|a [|b r]]; cbn [pairs_hex]; [discriminate | intros H; inversion H; reflexivity |].
+      destruct (int16_2 a b) as [v|e'] eqn:E; cbn [bind].
+      + destruct (pairs_hex r) as [t|e''] eqn:E2; cbn [bind]; [discriminate|].
+        intros H. inversion H. subst. apply (IH r); [cbn [length] in Hn; lia | exact E2].
+      + intros H. inversion H. subst. eapply int16_2_err. exact E. }
+  intros s e. apply (Hgen (length s)). lia.
+Qed.
+
+(* the only non-ValueError exception of the colour parser: the empty string (color[0]) *)
+Lemma hex_to_rgb_or_rgba_err s af e :
+  hex_to_rgb_or_rgba s af = Err e -> e = ValueError \/ (e = IndexErr /\ s = []).
+Proof.
+  destruct s as [|c0 rest].
+  - cbn [hex_to_rgb_or_rgba]. intros H. inversion H. first [left; reflexivity | right; split; reflexivity].
+  - cbn [hex_to_rgb_or_rgba]. cbv zeta.
+    match goal with |- context [pairs_hex ?c] => generalize c end. intros col.
+    destruct (negb _); [intros H; inversion H; left; reflexivity|].
+    destruct (pairs_hex col) as [vals|e'] eqn:E; cbn [bind].
+    + destruct (af && _); [|discriminate].
+      destruct vals as [|r [|g [|b [|a [|x t]]]]]; try (intros H; inversion H; left; reflexivity).
+      destruct (alpha_value a af) as [a'|e'] eqn:E2; cbn [bind]; [discriminate|].
+      intros H. inversion H. subst. left. eapply alpha_value_err. exact E2.
+    + intros H. inversion H. subst. left. eapply pairs_hex_err. exact E.
+Qed.
+
+Lemma color_to_rgba_err c af e :
+  color_to_rgba c af = Err e -> e = ValueError \/ (e = IndexErr /\ c = CStr []).
+Proof.
+  destruct c as [s|parts]; cbn [color_to_rgba].
+  - destruct (assoc_str _ _) as [[[r g] b]|]; [discriminate|].
+    destruct (hex_to_rgb_or_rgba s af) as [l|e'] eqn:E.
+    + destruct l as [|r [|g [|b [|a t]]]]; discriminate.
+    + apply hex_to_rgb_or_rgba_err in E.
+      destruct e'; intros H; inversion H; subst; (destruct E as [E|[E1 E2]]; [left; exact E | right; split; [exact E1 | rewrite E2; reflexivity]]).
+  - cbv zeta. destruct parts as [|r [|g [|b [|a [|x t]]]]]; try (intros H; inversion H; left; reflexivity).
+    + destruct (_ && _); intros H; inversion H; left; reflexivity.
+    + destruct (_ && _); [|intros H; inversion H; left; reflexivity].
+      destruct (alpha_value a af) as [a'|e'] eqn:E; cbn [bind]; [discriminate|].
+      intros H. inversion H. subst. left. eapply alpha_value_err. exact E.
+Qed.
+
+Lemma color_to_rgb_err c e : color_to_rgb c = Err e -> e = ValueError \/ (e = IndexErr /\ c = CStr []).
+Proof.
+  unfold color_to_rgb, color_to_rgb_or_rgba.
+  destruct (color_to_rgba c true) as [rgba|e'] eqn:E; cbn [bind].
+  - assert (Hok : forall (r : res (list Z)), (exists l, r = Ok l) ->
+              (do c0 <- r; if lenZ c0 =? 3 then Ok c0 else Err ValueError) = Err e -> e = ValueError).
+    { intros r [l ->]. cbn [bind]. destruct (lenZ l =? 3); intros H; inversion H; reflexivity. }
+    intros H. left. revert H. apply Hok.
+    destruct rgba as [|r [|g [|b [|a [|x t]]]]]; try (eexists; reflexivity).
+    destruct (a =? opaque true); eexists; reflexivity.
+  - intros H. inversion H. subst. eapply color_to_rgba_err. exact E.
+Qed.
+
+Theorem xpm_color_errors : forall c e,
+  xpm_color c = Err e -> e = ValueError \/ (e = IndexErr /\ c = Some (CStr [])).
+Proof.
+  intros [c|] e; cbn [xpm_color]; [|discriminate].
+  unfold color_to_rgb_hex. destruct (color_to_rgb c) as [rgb|e'] eqn:E; cbn [bind]; [discriminate|].
+  intros H. inversion H. subst. apply color_to_rgb_err in E.
+  destruct E as [E|[E1 E2]]; [left; exact E | right; split; [exact E1 | rewrite E2; reflexivity]].
+Qed.
+
+(* XPM: ValueError, or the exception raised by the colour parser for the empty colour string; nothing else *)
+Theorem write_xpm_errors : forall m w h scale border dark light name e,
+  write_xpm m w h scale border dark light name = Err e ->
+  e = ValueError \/ (e = IndexErr /\ (dark = Some (CStr []) \/ light = Some (CStr []))).
+Proof.
+  intros m w h scale border dark light name e. rewrite write_xpm_result.
+  destruct ((scale <? 1) || border_refused border); [intros H; inversion H; left; reflexivity|].
+  destruct (xpm_color dark) as [fg|e1] eqn:E1.
+  - destruct (xpm_color light) as [bg|e2] eqn:E2; [discriminate|].
+    intros H. inversion H. subst. destruct (xpm_color_errors _ _ E2) as [Hv|[Hi Hc]]; [left; exact Hv|].
+    right. split; [exact Hi | right; exact Hc].
+  - intros H. inversion H. subst. destruct (xpm_color_errors _ _ E1) as [Hv|[Hi Hc]]; [left; exact Hv|].
+    right. split; [exact Hi | left; exact Hc].
+Qed.
+
+(* the concrete input: an empty colour string goes through color[0] *)
+Theorem write_xpm_empty_dark : forall m w h scale border light name e,
+  1 <= scale -> border_refused border = false ->
+  hex_to_rgb_or_rgba [] true = Err e ->
+  write_xpm m w h scale border (Some (CStr [])) light name = Err e.
+Proof.
+  intros m w h scale border light name e Hs Hb He. rewrite write_xpm_result.
+  assert (E : scale <? 1 = false) by lia. rewrite E, Hb. cbn [orb].
+  assert (Hc : xpm_color (Some (CStr [])) = Err e).
+  { cbn [xpm_color]. unfold color_to_rgb_hex, color_to_rgb, color_to_rgb_or_rgba. cbn [color_to_rgba].
+    change (assoc_str (lower []) _) with (assoc_str [] NAME2RGB).
+    assert (Hn : assoc_str [] NAME2RGB = None) by (vm_compute; reflexivity).
+    rewrite Hn, He. destruct e; reflexivity. }
+  rewrite Hc. reflexivity.
+Qed.
+
+(* XBM: only ValueError, exactly for scale < 1 or a negative border; any matrix, any name *)
+Theorem write_xbm_errors : forall m w h scale border name e,
+  write_xbm m w h scale border name = Err e ->
+  e = ValueError /\ (scale < 1 \/ border_refused border = true).
+Proof.
+  intros m w h scale border name e. rewrite write_xbm_result.
+  destruct (scale <? 1) eqn:E1; cbn [orb].
+  - intros H. inversion H. split; [reflexivity | left; lia].
+  - destruct (border_refused border); [|discriminate]. intros H. inversion H. split; [reflexivity | right; reflexivity].
+Qed.
+
+(* ------------------------------------------------------------------------------------------------ *)
+(** * 10. Reading the specification grid: the quiet zone is light *)
+Lemma quiet_zone_light m size scale b x y :
+  ~ (0 <= y / scale - b < size /\ 0 <= x / scale - b < size) -> pixel_spec m size scale b x y = 0.
+Proof.
+  intros H. unfold pixel_spec, module_at.
+  destruct ((0 <=? y / scale - b) && (y / scale - b <? size) && (0 <=? x / scale - b) && (x / scale - b <? size)) eqn:E;
+    [exfalso; apply H; lia | reflexivity].
 Qed.
